@@ -137,7 +137,7 @@ def check_subquery(new_tbl, child_tbl, *, is_right: bool = False):
                 modified_new_tbl._ast = new_chain[0]
                 return (modified_new_tbl, test_tbl)
 
-            if isinstance(nd, verbs.SubqueryMarker | verbs.Join):
+            if isinstance(nd, verbs.SubqueryMarker | verbs.Join | verbs.Union):
                 break
             chain.append(nd)
 
